@@ -18,7 +18,7 @@ Broken(t) ==
         <<"the pre join point did not start with the gas given to the call", RulePreStart(t.given, t.aen, t.jp)>>,
         <<"the callee did not start with exactly what the pre join point left", RuleCalleeStart(t.given, t.aex, t.jp, t.first)>>,
         <<"the post join point did not start with exactly what the callee left", RulePostStart(t.aen, t.jp, t.last)>>,
-        <<"the caller did not get back exactly what the post join point left (or did not forfeit the gas of a failed frame)", RuleReturn(t.given, t.used, t.aex, t.jp, t.last, t.err, t.prefailed)>>,
+        <<"the caller did not get back exactly what the post join point left (or did not forfeit the gas of a failed frame, or got back more than a failing pre join point left)", RuleReturn(t.given, t.used, t.aex, t.jp, t.last, t.err, t.prefailed)>>,
         <<"a frame returned more gas than it was given", RuleBound(t.given, t.used)>>,
         <<"an Aspect ran out of gas but the call did not end as out-of-gas with nothing returned", RuleAspectOOG(t.given, t.used, t.aerr, t.err)>>,
         <<"the structure of the call (which Aspects and whether the callee ran, error class) differs from the model", t.structok>> >>
